@@ -298,16 +298,26 @@ pub(super) fn execute_optional_where_fixup<'a, S: GraphSnapshot + 'a>(
     }
 
     let mut out: Vec<Result<Row>> = Vec::new();
+    // `filtered_rows` already holds the matches of every outer row, duplicates included, and rows
+    // are paired by their bindings: equal outer rows must therefore take their matches only
+    // once, or k equal outer rows would each receive the matches of all k
+    let mut handled: Vec<Row> = Vec::new();
     for outer_row in outer_rows {
         if let Err(err) = params.check_timeout("OptionalWhereFixup.merge") {
             return PlanIterator::Dynamic(Box::new(std::iter::once(Err(err))));
         }
+        let duplicate = handled.iter().any(|seen| *seen == outer_row);
         let mut matched = false;
         for row in &filtered_rows {
             if row_contains_all_bindings(row, &outer_row) {
-                out.push(Ok(row.clone()));
+                if !duplicate {
+                    out.push(Ok(row.clone()));
+                }
                 matched = true;
             }
+        }
+        if !duplicate {
+            handled.push(outer_row.clone());
         }
         if !matched {
             let mut null_row = outer_row;
